@@ -67,7 +67,7 @@ func enumerate(t *explore.T, cfgs []wops.Cfg, depth int) {
 			return
 		}
 		S := w.Size()
-		alpha := wops.Alphabet(S)
+		alpha := append(wops.Alphabet(S), wops.Op{Kind: "Reset"})
 		var rec func(h []wops.Op)
 		rec = func(h []wops.Op) {
 			hh := append([]wops.Op{}, h...)
